@@ -51,7 +51,7 @@ CLAIMED = {
    design="DESIGN.md §3 C03"),
  "C05": dict(
    technique="explicit-state model checking (E2): breadth-first search over builder operation histories on the real TransactionBuilder with canonical-state deduplication; in every state every balancing method x configuration is executed (RNG answers within 1 deviation) and the built transaction is re-parsed and summed by an independent ledger oracle; model/implementation conformance checked in every state",
-   text="Histories to depth 3 over 44 operations (11 inputs of key/Byron/native-script/Plutus owners with ADA at three widths and 1-3 asset policies, an input added twice, 5 requested outputs, 9 certificates covering every deposit/refund class, key withdrawals incl. one of 0 lovelace and re-adding an account with another amount, native mint / burn / two-name mint, proposal, donation, 4 fee requests, collateral, metadata, declared reference scripts); in each distinct builder state, 5 (thorough 9) balancing methods x 7 (9) configurations (default, prefer_pure_change, max_value_size=70 forcing split asset change, coins_per_byte=1, do_not_burn_extra_change, reference-input de-duplication, a 76-byte Byron change address with prefer_pure_change / with max_value_size=70, the older per-item entry points add_key_input / add_bootstrap_input / add_native_script_input / set_certs / set_withdrawals / set_mint); thorough adds depth 4 over a 32-operation core alphabet. Whenever balancing and build_tx succeed the transaction bytes are parsed by refcbor, inputs resolved in the scenario's UTxO table, and consumed == produced checked in u128 for lovelace and every asset id with the harness's deposit/refund table. The parsed body is also compared with the plain reference model of the history (inputs, certificates, withdrawals, mint, proposals, donation, collateral).",
+   text="Histories to depth 2 (thorough 3) over 49 operations, plus depth 3 (thorough 4) over a 33-operation core alphabet (11 inputs of key/Byron/native-script/Plutus owners with ADA at three widths and 1-3 asset policies, an input added twice, 5 requested outputs, 9 certificates covering every deposit/refund class, key withdrawals incl. one of 0 lovelace and re-adding an account with another amount, native mint / burn / two-name mint, proposal, donation, 4 fee requests, collateral, metadata set and added as JSON, ttl and validity start, current treasury value, add_mint_asset_and_output, declared reference scripts); in each distinct builder state, 5 (thorough 9) balancing methods x 8 (10) configurations (default, prefer_pure_change, max_value_size=70 forcing split asset change, coins_per_byte=1, do_not_burn_extra_change, reference-input de-duplication, a 76-byte Byron change address with prefer_pure_change / with max_value_size=70, the older per-item entry points add_key_input / add_bootstrap_input / add_native_script_input / add_plutus_script_input / set_certs / set_withdrawals / set_mint; set-remove-set of every removable component). Whenever balancing and build_tx succeed the transaction bytes are parsed by refcbor, inputs resolved in the scenario's UTxO table, and consumed == produced checked in u128 for lovelace and every asset id with the harness's deposit/refund table. The parsed body is also compared with the plain reference model of the history (inputs, certificates, withdrawals, mint, proposals, donation, collateral).",
    note="Trusted: ledger rules transcription (notes/ledger_rules.md §1), refcbor, the scenario's UTxO table. State key = digest of the Debug rendering of the real sub-builders plus the model (finer than necessary, never coarser).",
    design="DESIGN.md §3 C05"),
  "C06": dict(
@@ -61,17 +61,17 @@ CLAIMED = {
    design="DESIGN.md §3 C06"),
  "C09": dict(
    technique="explicit-state model checking (E2) over histories of Plutus uses on the real builder + bounded-exhaustive enumeration (E1) of the stand-alone hashing helpers; oracle recomputes both hashes from byte spans cut out of the emitted transaction",
-   text="Histories to depth 5 (thorough 6) over 35 operations: Plutus spends (V1/V2/V3, the same bytes under two languages, three inputs under one script; script inline or by reference; datum in the witness set or inline), two Plutus mint policies, script certificates, two Plutus / native / key withdrawals, script and key voters (two Plutus), plain and Plutus-guarded proposals, extra datums (new and duplicate of a spend datum), metadata; calc_script_data_hash before and after balancing. From the built bytes refcbor cuts the raw spans of witness fields 5 and 4 and of the auxiliary data; body[11] must equal blake2b256(redeemers-or-A0 || datums-if-present || language views of exactly the languages in use) with the harness's own language-view encoder, body[7] must equal blake2b256(aux span). hash_script_data / hash_auxiliary_data / hash_plutus_data are compared with the bytes a witness set built through the typed setters emits for the same arguments (redeemers {0,1,2} x map/array container x 6 datum arguments incl. duplicates and an indefinite-decoded list x 4 cost-model tables).",
+   text="Histories to depth 4 (thorough 5) over 39 operations plus depth 5 (6) over a 22-operation core alphabet: Plutus spends (V1/V2/V3, the same bytes under two languages, three inputs under one script; script inline or by reference; datum in the witness set, inline or in a reference input), two Plutus mint policies, a mint that nets to zero, script certificates, two Plutus / native / key withdrawals, script and key voters (two Plutus), plain and Plutus-guarded proposals, extra datums (new and duplicate of a spend datum), metadata; calc_script_data_hash before and after balancing. From the built bytes refcbor cuts the raw spans of witness fields 5 and 4 and of the auxiliary data; body[11] must equal blake2b256(redeemers-or-A0 || datums-if-present || language views of exactly the languages in use) with the harness's own language-view encoder, body[7] must equal blake2b256(aux span). hash_script_data / hash_auxiliary_data / hash_plutus_data are compared with the bytes a witness set built through the typed setters emits for the same arguments (redeemers {0,1,2} x map/array container x 6 datum arguments incl. duplicates and an indefinite-decoded list x 4 cost-model tables).",
    note="Trusted: notes/ledger_rules.md §6, cryptoxide blake2b. Precondition from the property: the hash is computed after the last script item was added.",
    design="DESIGN.md §3 C09"),
  "C10": dict(
    technique="explicit-state model checking (E2): BFS over all insertion orders of script and non-script items on the real builder; oracle resolves every emitted redeemer pointer in the re-parsed body by the ledger's ordering rules",
-   text="Histories to depth 5 (thorough 6) over 35 operations with at least two Plutus items in every redeemer purpose: key and Plutus inputs on adversarial outpoints (hash order != index order != insertion order; three inputs under one script), native and two Plutus policies, key and script certificates, key / native-script / two Plutus withdrawals, committee key / committee script / two Plutus voters, plain and two Plutus-guarded proposals; every redeemer's data is a unique integer naming the item it was attached to. For each (tag, index) in the emitted witness set the item is resolved in the parsed body (inputs sorted by (txid, ix); policies bytewise; certificates in sequence; reward accounts in the ledger's RewardAccount order - script before key; voters in the ledger's Voter order; proposals in sequence) and must be the named item; no two redeemers share a pointer.",
+   text="Histories to depth 4 (thorough 5) over 39 operations plus depth 5 (6) over a 22-operation core alphabet, with at least two Plutus items in every redeemer purpose: key and Plutus inputs on adversarial outpoints (hash order != index order != insertion order; three inputs under one script), native and two Plutus policies (and a native mint that nets to zero before them), key and script certificates, key / native-script / two Plutus withdrawals, committee key / committee script / two Plutus voters, plain and two Plutus-guarded proposals; every redeemer's data is a unique integer naming the item it was attached to. For each (tag, index) in the emitted witness set the item is resolved in the parsed body (inputs sorted by (txid, ix); policies bytewise; certificates in sequence; reward accounts in the ledger's RewardAccount order - script before key; voters in the ledger's Voter order; proposals in sequence) and must be the named item; no two redeemers share a pointer.",
    note="Trusted: notes/ledger_rules.md §5. BFS visits every order of every multiset of operations, which is the permutation differential of the design.",
    design="DESIGN.md §3 C10"),
  "C18": dict(
    technique="explicit-state model checking (E2): BFS over histories mixing every witness source on the real builder; oracle = script availability exactly once + size of the really signed transaction",
-   text="Histories to depth 4 (thorough 5) over 42 operations x 3 configurations (default, reference-input de-duplication, older entry points): key inputs sharing a key, three Byron inputs over two addresses, native-script inputs (inline / by reference with declared signers), Plutus inputs V1/V2/V3 (the same bytes under two languages; two inputs under one script; inline or reference script, witness or inline datum), collateral (same / different key), certificates of every witness class, key / native / Plutus withdrawals, five voter kinds, native and Plutus mints, required signers (new / already needed), explicit reference inputs (plain, with script size, equal to a regular input, with and without the de-duplication flag), extra datums, metadata. For every built transaction: each script-locked item has its script exactly once (witness set, or reference input present in body[18], never both unless another use supplies it inline), witness datums exactly the supplied ones once, one redeemer per Plutus use, and 0 <= full_size() - |transaction signed by exactly witsVKeyNeeded + one bootstrap witness per Byron address| < 101.",
+   text="Histories to depth 4 (thorough 5) over 49 operations x 3 configurations (default, reference-input de-duplication, older entry points): key inputs sharing a key, three Byron inputs over two addresses, native-script inputs (pubkey, all-of, 2-of-3 with any-of and a time lock; inline / by reference with all or different single signers declared on two inputs of one script), Plutus inputs V1/V2/V3 (the same bytes under two languages; two inputs under one script; inline or reference script, witness / inline / reference-input datum), collateral (same / different key), certificates of every witness class, key / native / Plutus withdrawals, five voter kinds, native and Plutus mints, required signers (new / already needed), explicit reference inputs (plain, with script size, equal to a regular input, with and without the de-duplication flag), extra datums, metadata. For every built transaction: each script-locked item has its script exactly once (witness set, or reference input present in body[18], never both unless another use supplies it inline), witness datums exactly the supplied ones once, one redeemer per Plutus use, and 0 <= full_size() - |transaction signed by exactly witsVKeyNeeded + one bootstrap witness per Byron address| < 101.",
    note="Trusted: notes/ledger_rules.md §4, ledger.rs. Script hashes recomputed by the harness with cryptoxide.",
    design="DESIGN.md §3 C18"),
  "C08": dict(
